@@ -212,7 +212,28 @@ CFG = {'all_parents': False, 'deep': False}
 VALIDATION_ERRORS = ('NotValid', 'MustValueError', 'OutsideCardinality', 'ShouldValueError', 'ValueError')
 
 
+_PRIMED = []
+
+
+def prime():
+    """Non-initial state of the validator: every value the violations below use has been seen before as the content of
+    a plain string element (where it is perfectly valid)."""
+    if _PRIMED:
+        return
+    _PRIMED.append(1)
+    from saml2_tophat import saml
+    from saml2_tophat.validate import valid_instance
+    vals = [BAD_ENUM] + [v for lst in schema.BAD.values() for v in lst]
+    for v in vals:
+        for inst in (saml.NameID(text=v), saml.Audience(text='urn:' + v) if False else saml.NameID(text=v, format=saml.NAMEID_FORMAT_PERSISTENT)):
+            try:
+                valid_instance(inst)
+            except Exception:
+                pass
+
+
 def evaluate(names):
+    prime()
     classes = {schema.cname(c): c for c in schema.discover()}
     res = []
     for cn in names:
@@ -257,6 +278,27 @@ def evaluate(names):
                     if desc[0] == 'class-rule':
                         continue            # not (or no longer) a rule of this class: nothing to demand below
                     bad.append((desc, 'violation-accepted-at-root'))
+                if desc[0] not in ('class-rule', 'class-bound'):
+                    # the same violation on an element that also has an unknown child element, and after a trip through
+                    # XML text (what a receiver validates is always a parsed instance)
+                    from saml2_tophat import ExtensionElement
+                    import saml2_tophat
+                    xe = schema.base_instance(cls, 2)
+                    viol(xe)
+                    xe.extension_elements.append(ExtensionElement('Foo', namespace='urn:vp:foreign', text='t'))
+                    n += 1
+                    if validates(xe)[0] == 'ok':
+                        bad.append((desc + ['with-unknown-child'], 'violation-accepted-at-root'))
+                    xp = schema.base_instance(cls, 2)
+                    viol(xp)
+                    try:
+                        yp = saml2_tophat.create_class_from_xml_string(cls, xp.to_string())
+                    except Exception:
+                        yp = None
+                    if yp is not None:
+                        n += 1
+                        if validates(yp)[0] == 'ok':
+                            bad.append((desc + ['after-parsing'], 'violation-accepted-at-root'))
                 if desc[0] != 'class-rule':
                     # the same violation inside an element that also carries xsi:nil="true" (a foreign attribute for
                     # every class but AttributeValue): still a violation
